@@ -86,7 +86,14 @@ class World06(World):
     def op_perturb(self, op, rng):
         s = self.slots[op["in"][0]]
         stats = {}
-        new = bytecode.perturb(s.value, prng.PRNG(op["seed"]), op["kinds"], stats)
+        try:
+            new = bytecode.perturb(s.value, prng.PRNG(op["seed"]), op["kinds"], stats)
+        except (IndexError, ValueError, KeyError):
+            # the code object in transit is not even well-formed bytecode (only a broken encoder produces that):
+            # no artefact to inject; the trip goes on and the lineage's invariants judge it
+            self.count("perturb_input_unparseable")
+            self.event("perturb-unparseable", op["id"])
+            return None
         for k, v in stats.items():
             self.pstats[k] = self.pstats.get(k, 0) + v
             self.count("perturb_" + k, v)
@@ -146,6 +153,62 @@ class World06(World):
         r = World.op_dumps(self, op, rng)
         return r
 
+    def op_failed_call(self, op, rng):
+        """A FAILED call in the history: one API call on the current state is aborted at a seeded instant
+        (an exception arrives at the k-th line inside the library), or a foreign document naming an opcode this
+        interpreter does not have is loaded and encoded (refused).  The caller carries on; nothing is checked here -
+        the lineage's own invariants (N1/N2/N3) are checked on every later step as usual."""
+        s = self.slots[op["in"][0]]
+        name = op["call"]
+        if op["how"] == "abort":
+            thunk = lambda: api_call(name, s.value)  # noqa: E731
+            if "k" not in op:
+                n, _ = sched.count_lines(thunk)
+                op["n_lines"] = n
+                op["k"] = rng.randint(1, max(1, n))
+            fired, where, out = sched.run_with_abort(thunk, op["k"], op.get("exc", "KeyboardInterrupt"))
+            self.event("failed-call", name, op["k"], fired, out[0] if out[0] == "ok" else out[1])
+            if fired:
+                self.faults_fired += 1
+                self.count("fault_aborted_call_in_history")
+                self.count("fault_aborted_call_in_history_" + name)
+                if where:
+                    self.probes["history_abort_in_fn:" + where[0]] = self.probes.get("history_abort_in_fn:" + where[0], 0) + 1
+            else:
+                self.count("history_abort_not_fired")
+            return None
+        # foreign document with an opcode name unknown to this interpreter
+        doc = sched._outcome(lambda: api_call("to_json_data", s.value))
+        if doc[0] != "ok":
+            return None
+        doc = copy.deepcopy(doc[1])
+        sites = []
+
+        def walk(v):
+            if isinstance(v, dict):
+                if isinstance(v.get("blocks"), list):
+                    for b in v["blocks"]:
+                        if isinstance(b, list):
+                            for ins in b:
+                                if isinstance(ins, dict) and "name" in ins:
+                                    sites.append(ins)
+                for x in v.values():
+                    walk(x)
+            elif isinstance(v, list):
+                for x in v:
+                    walk(x)
+
+        walk(doc)
+        if not sites:
+            return None
+        sites[op["site"] % len(sites)]["name"] = "ZZ_NO_SUCH_OPCODE"
+        out = sched._outcome(lambda: api_call("to_code", api_call("from_json_data", doc)))
+        self.event("failed-call", "foreign-opcode", out[0] if out[0] == "ok" else out[1])
+        if out[0] != "ok":
+            self.faults_fired += 1
+            self.count("fault_foreign_document_refused_in_history")
+        return None
+
     def finish(self):
         pass
 
@@ -169,6 +232,7 @@ def swarm_c06(rng, tier):
         "json_w": rng.choice([1, 2, 3]),
         "code_w": rng.choice([1, 2, 3]),
         "norm_w": rng.choice([0, 1, 2]),
+        "fail_rate": rng.choice([0.0, 0.0, 0.25, 0.5]),
         "mix": [("gen", rng.choice([2, 5])), ("tmpl", rng.choice([2, 4])), ("corpus", rng.choice([0, 1, 2])), ("stdlib", rng.choice([0, 0, 1]))],
     }
 
@@ -264,6 +328,14 @@ def run_c06(seed, tree, tier, known):
         w.trips += 1
         if decoys and rng.chance(0.4):
             run_decoy(w, rng, rng.choice(decoys))
+            if w.stop:
+                break
+        if cfg["fail_rate"] and s.meta.get("w", 0) <= 1500 and rng.chance(cfg["fail_rate"]):
+            if rng.chance(0.7):
+                w.execute({"op": "failed_call", "in": [state.id], "how": "abort", "call": rng.choice(["to_code", "to_code", "to_json_data", "normalize"]),
+                           "exc": rng.choice(["KeyboardInterrupt", "MemoryError", "SimAbort"])}, rng)
+            else:
+                w.execute({"op": "failed_call", "in": [state.id], "how": "foreign", "call": "to_code", "site": rng.randint(0, 10 ** 6)}, rng)
             if w.stop:
                 break
         k = rng.weighted([("json", cfg["json_w"]), ("code", cfg["code_w"]), ("norm", cfg["norm_w"])])
